@@ -143,72 +143,7 @@ def _dispatch(chk, f, fmt_table):
     return inner
 
 
-def _specialize(stmts, var, val, consts):
-    """the statements as they run when `var == val`: tests on `var` against constants / constant sets are decided, the branch
-    not taken is dropped, what follows a statement that always leaves is dropped (copies; the input is not modified)"""
-    import copy as _copy
-
-    def ev(t):
-        if isinstance(t, ast.Compare) and len(t.ops) == 1 and isinstance(t.left, ast.Name) and t.left.id == var:
-            r = t.comparators[0]
-            op = t.ops[0]
-            if isinstance(r, ast.Constant) and isinstance(op, (ast.Eq, ast.NotEq)):
-                return (val == r.value) if isinstance(op, ast.Eq) else (val != r.value)
-            if isinstance(op, (ast.In, ast.NotIn)):
-                s = None
-                if isinstance(r, (ast.Tuple, ast.List, ast.Set)) and all(isinstance(e, ast.Constant) for e in r.elts):
-                    s = {e.value for e in r.elts}
-                elif isinstance(r, ast.Name) and r.id in consts:
-                    s = consts[r.id]
-                if s is not None:
-                    return (val in s) if isinstance(op, ast.In) else (val not in s)
-        if isinstance(t, ast.UnaryOp) and isinstance(t.op, ast.Not):
-            v = ev(t.operand)
-            return None if v is None else not v
-        if isinstance(t, ast.BoolOp):
-            vs = [ev(v) for v in t.values]
-            if isinstance(t.op, ast.And):
-                return False if any(v is False for v in vs) else (True if all(v is True for v in vs) else None)
-            return True if any(v is True for v in vs) else (False if all(v is False for v in vs) else None)
-        return None
-
-    def ends(blk):
-        return bool(blk) and (isinstance(blk[-1], (ast.Return, ast.Raise, ast.Continue, ast.Break))
-                              or (isinstance(blk[-1], ast.If) and ends(blk[-1].body) and ends(blk[-1].orelse))
-                              or (isinstance(blk[-1], ast.With) and ends(blk[-1].body)))
-
-    out = []
-    for s in stmts:
-        if isinstance(s, ast.If):
-            v = ev(s.test)
-            if v is True:
-                out.extend(_specialize(s.body, var, val, consts))
-            elif v is False:
-                out.extend(_specialize(s.orelse, var, val, consts))
-            else:
-                n = _copy.copy(s)
-                n.body = _specialize(s.body, var, val, consts) or [ast.copy_location(ast.Pass(), s)]
-                n.orelse = _specialize(s.orelse, var, val, consts)
-                out.append(n)
-        elif isinstance(s, ast.Match) and isinstance(s.subject, ast.Name) and s.subject.id == var:
-            for c in s.cases:
-                lits = [p.value.value for p in ast.walk(c.pattern) if isinstance(p, ast.MatchValue) and isinstance(p.value, ast.Constant)]
-                if val in lits or (isinstance(c.pattern, ast.MatchAs) and c.pattern.pattern is None and c.guard is None):
-                    out.extend(_specialize(c.body, var, val, consts))
-                    break
-        elif isinstance(s, (ast.With, ast.For, ast.While)):
-            n = _copy.copy(s)
-            n.body = _specialize(s.body, var, val, consts) or [ast.copy_location(ast.Pass(), s)]
-            out.append(n)
-        elif isinstance(s, ast.Try):
-            n = _copy.copy(s)
-            n.body = _specialize(s.body, var, val, consts) or [ast.copy_location(ast.Pass(), s)]
-            out.append(n)
-        else:
-            out.append(s)
-        if ends(out):
-            break
-    return out
+from ..canon import specialize as _specialize  # noqa: E402
 
 
 def _otype_calls(body, recv):
